@@ -102,6 +102,15 @@ theorem append_one_effect {h h' : Heap} {p y : Nat} (hg : Good2 h) (hp : (h.kind
     h'.parent y = some p :=
   BS.Heap.append_one_effect hg hp hy ha
 
+/-- **wrap(w)**: `w` takes `x`'s place; `x` becomes the last child of `w`; nothing else moves -/
+theorem wrap_effect {h h' : Heap} {x w p : Nat} (hg : Good2 h) (hp : h.parent x = some p)
+    (hw : (h.kind w).isTag = true) (hws : h.kind w ≠ .soup) (hxw : w ≠ x) (hwp : w ∉ h.kids p)
+    (hr : wrap h x w = .ok h') :
+    Good2 h' ∧ h'.kids p = (h.kids p).map (fun k => if k = x then w else k) ∧
+    h'.kids w = h.kids w ++ [x] ∧ h'.parent x = some w ∧ h'.parent w = some p ∧
+    (∀ n, n ≠ p → n ≠ w → h'.kids n = (h.kids n).erase w) :=
+  BS.Heap.wrap_effect hg hp hw hws hxw hwp hr
+
 /-! non-vacuity: the calls succeed on a concrete tree (`t0` with children `[1,2,3,4]`) and give the stated lists -/
 def wFour : Except Err Heap :=
   run (Heap.init [.tag, .tag, .tag, .tag, .tag])
@@ -111,6 +120,10 @@ example : (wFour.bind fun h => (insertAfter h 2 [.node 1]).map (·.kids 0)).toOp
 example : (wFour.bind fun h => (append h 0 (.node 2)).map (·.kids 0)).toOption = some [1, 3, 4, 2] := by decide
 example : (wFour.bind fun h => (unwrap h 0).map (·.kids 0)).toOption = none := by decide   -- no parent: ValueError
 example : (wFour.bind fun h => (clear h 0).map (·.kids 0)).toOption = some [] := by decide
+def wFive : Except Err Heap :=
+  run (Heap.init [.tag, .tag, .tag, .tag, .tag, .tag])
+    [.append 0 (.node 1), .append 0 (.node 2), .append 0 (.node 3), .append 5 (.node 4)]
+example : (wFive.bind fun h => (wrap h 2 5).map (fun h => (h.kids 0, h.kids 5))).toOption = some ([1, 5, 3], [4, 2]) := by decide
 
 /-! ### witness: the slot arithmetic before the repair breaks contiguity
 
